@@ -9,27 +9,27 @@ Local Open Scope list_scope.
 (** ** the bounds of a generic dependency: [find_deps_generic_bounds] against [declared_bounds] *)
 
 (** what one where predicate contributes to the dependency named [name] *)
-Definition contrib (name : string) (w : wpred) : list toks :=
+Definition contrib (lts : list string) (name : string) (w : wpred) : list toks :=
   if wp_is_type w then
     match wp_bounded w with
-    | BPath false false 1 first => if String.eqb first name then pred_bounds w else []
+    | BPath false false 1 first => if String.eqb first name then pred_bounds lts w else []
     | _ => []
     end
   else [].
 
 (** what one generic parameter contributes *)
-Definition pcontrib (name : string) (p : gparam) : list toks :=
+Definition pcontrib (lts : list string) (name : string) (p : gparam) : list toks :=
   match gp_kind p with
-  | GType => if String.eqb (gp_name p) name then trait_bounds (gp_bounds p) else []
+  | GType => if String.eqb (gp_name p) name then trait_bounds lts (gp_bounds p) else []
   | _ => []
   end.
 
 Lemma declared_bounds_named nd s name b0 :
   deps_kind nd s = DGeneric (Some name) b0 ->
-  declared_bounds nd s = flat_map (pcontrib name) (p_items (g_params (s_gen s))) ++ flat_map (contrib name) (where_items (s_gen s)).
+  declared_bounds nd s = flat_map (pcontrib (life_names (s_gen s)) name) (p_items (g_params (s_gen s))) ++ flat_map (contrib (life_names (s_gen s)) name) (where_items (s_gen s)).
 Proof. intros E. unfold declared_bounds. rewrite E. reflexivity. Qed.
 
-Lemma deps_where_step_fst lts name b tg w : fst (deps_where_step lts name (b, tg) w) = b ++ contrib name w.
+Lemma deps_where_step_fst lts name b tg w : fst (deps_where_step lts name (b, tg) w) = b ++ contrib lts name w.
 Proof.
   unfold deps_where_step, contrib. destruct (wp_is_type w); [|cbn; rewrite app_nil_r; reflexivity].
   destruct (wp_bounded w) as [q l ns f|]; [|cbn; rewrite app_nil_r; reflexivity].
@@ -39,7 +39,7 @@ Proof.
 Qed.
 
 Lemma fold_where_fst lts name : forall ws b tg,
-  fst (fold_left (deps_where_step lts name) ws (b, tg)) = b ++ flat_map (contrib name) ws.
+  fst (fold_left (deps_where_step lts name) ws (b, tg)) = b ++ flat_map (contrib lts name) ws.
 Proof.
   induction ws as [|w ws IH]; intros b tg; cbn [fold_left flat_map]; [rewrite app_nil_r; reflexivity|].
   pose proof (deps_where_step_fst lts name b tg w) as H.
@@ -47,9 +47,9 @@ Proof.
   rewrite IH, <- app_assoc. reflexivity.
 Qed.
 
-Lemma pcontrib_absent name : forall l,
+Lemma pcontrib_absent lts name : forall l,
   ~ In name (map gp_name (filter (fun p => match gp_kind p with GType => true | _ => false end) l)) ->
-  flat_map (pcontrib name) l = [].
+  flat_map (pcontrib lts name) l = [].
 Proof.
   induction l as [|p l IH]; intros H; [reflexivity|]. cbn [flat_map filter] in *. unfold pcontrib at 1.
   destruct (gp_kind p); cbn [map] in H; try (apply IH; exact H).
@@ -58,10 +58,10 @@ Proof.
   - apply IH. intros Hin. apply H. right. exact Hin.
 Qed.
 
-Lemma find_type_param_bounds name : forall l idx i p,
+Lemma find_type_param_bounds lts name : forall l idx i p,
   find_type_param name l idx = Some (i, p) ->
   NoDup (map gp_name (filter (fun p => match gp_kind p with GType => true | _ => false end) l)) ->
-  flat_map (pcontrib name) l = trait_bounds (gp_bounds p).
+  flat_map (pcontrib lts name) l = trait_bounds lts (gp_bounds p).
 Proof.
   induction l as [|p0 l IH]; intros idx i p H Hn; cbn [find_type_param] in H; [discriminate|].
   cbn [flat_map filter] in *. unfold pcontrib at 1.
@@ -69,19 +69,19 @@ Proof.
   cbn [map] in Hn. inversion Hn as [|? ? Hnotin Hn']; subst.
   destruct (String.eqb (gp_name p0) name) eqn:E.
   - injection H as _ <-. apply String.eqb_eq in E. rewrite E in Hnotin.
-    rewrite (pcontrib_absent _ _ Hnotin), app_nil_r. reflexivity.
+    rewrite (pcontrib_absent _ _ _ Hnotin), app_nil_r. reflexivity.
   - eapply IH; eassumption.
 Qed.
 
 Lemma find_deps_bounds tg g name d tg' :
   find_deps_generic_bounds tg g name = Some (d, tg') -> nodup_str (tparam_names g) = true ->
-  d = DGeneric (Some name) (flat_map (pcontrib name) (p_items (g_params g)) ++ flat_map (contrib name) (where_items g)).
+  d = DGeneric (Some name) (flat_map (pcontrib (life_names g) name) (p_items (g_params g)) ++ flat_map (contrib (life_names g) name) (where_items g)).
 Proof.
   unfold find_deps_generic_bounds. intros H Hn. apply nodup_str_NoDup in Hn.
   destruct (find_type_param name (p_items (g_params g)) 0) as [[idx p]|] eqn:F; [|discriminate].
-  pose proof (fold_where_fst (life_names g) name (where_items g) (trait_bounds (gp_bounds p)) (push_others (p_items (g_params g)) 0 idx tg)) as Hf.
+  pose proof (fold_where_fst (life_names g) name (where_items g) (trait_bounds (life_names g) (gp_bounds p)) (push_others (p_items (g_params g)) 0 idx tg)) as Hf.
   destruct (fold_left _ _ _) as [b t2]. cbn [fst] in Hf. injection H as <- _. subst b.
-  rewrite (find_type_param_bounds _ _ _ _ _ F Hn). reflexivity.
+  rewrite (find_type_param_bounds _ _ _ _ _ _ F Hn). reflexivity.
 Qed.
 
 (** ** one analysed function *)
@@ -218,7 +218,7 @@ Section WhereInv.
   Proof.
     unfold find_deps_generic_bounds. intros H Hi Hw.
     destruct (find_type_param name (p_items (g_params g)) 0) as [[idx p]|]; [|discriminate].
-    pose proof (winv_fold_step (life_names g) name (where_items g) (trait_bounds (gp_bounds p)) _ (winv_push_others (p_items (g_params g)) 0 idx tg Hi) Hw) as Hs.
+    pose proof (winv_fold_step (life_names g) name (where_items g) (trait_bounds (life_names g) (gp_bounds p)) _ (winv_push_others (p_items (g_params g)) 0 idx tg Hi) Hw) as Hs.
     destruct (fold_left _ _ _) as [b t2]. injection H as _ <-. exact Hs.
   Qed.
 
